@@ -96,6 +96,29 @@ fn main() {
             }
         }
     }
-    let out = conclude(spec, &cfg, rep, wall, Vec::new(), Vec::new(), Vec::new());
+    // fold in the sanitizer / interpreter lanes that tools/lanes.sh ran for this property (main run only)
+    let (mut lanes, mut lane_viol, mut lane_inc) = (Vec::new(), Vec::new(), Vec::new());
+    if cfg.lane.is_none() && cfg.replay_case.is_none() {
+        let evdir = vharness::report::verif_root().join("evidence");
+        if let Ok(rd) = std::fs::read_dir(&evdir) {
+            let mut files: Vec<_> = rd.flatten().map(|e| e.path()).filter(|p| p.file_name().and_then(|n| n.to_str()).is_some_and(|n| n.starts_with(&format!(".lane-{prop}-")) && n.ends_with(".result"))).collect();
+            files.sort();
+            for f in files {
+                let Some(v) = std::fs::read_to_string(&f).ok().and_then(|t| serde_json::from_str::<serde_json::Value>(&t).ok()) else { continue };
+                match v["status"].as_str() {
+                    Some("violation") => lane_viol.push(vharness::report::Violation {
+                        signature: format!("{prop}.sanitizer.{}", v["lane"].as_str().unwrap_or("lane")),
+                        detail: format!("{} reported {} problem(s) while running this property's workload: {}", v["tool"].as_str().unwrap_or("tool"), v["reports"], v["detail"].as_str().unwrap_or("")),
+                        case: 0,
+                        trace: Vec::new(),
+                    }),
+                    Some("inconclusive") => lane_inc.push(format!("lane {} ({}): {}", v["lane"].as_str().unwrap_or("?"), v["tool"].as_str().unwrap_or("?"), v["detail"].as_str().unwrap_or(""))),
+                    _ => {}
+                }
+                lanes.push(v);
+            }
+        }
+    }
+    let out = conclude(spec, &cfg, rep, wall, lanes, lane_viol, lane_inc);
     std::process::exit(out.exit_code);
 }
